@@ -1,12 +1,1062 @@
-//! C18: harness module (stub — not built yet)
-#![allow(dead_code, unused_imports, unused_variables)]
+//! C18: NDL elaboration is total and the built simulation matches the description.
+//!
+//! Script lines (one declaration per line, modules named by a tag, so scripts survive deletion;
+//! every string is escaped: characters outside `[A-Za-z0-9_()\[\]/<,+-]` are `%<hex>;`, the
+//! empty string is `%;`):
+//!   entry <sym>
+//!   link <name> <latency_ms> <jitter_ms> <bitrate> <queuesize|->
+//!   mod <tag> <type clause>                     e.g.  mod m2 G(T%20;<-%20;I)
+//!   inherit <tag> <sym>
+//!   gate <tag> <field>                          e.g.  gate m2 in[3]
+//!   sub <tag> <stag> <field> <type clause>      e.g.  sub m2 s5 host[2] H(C)
+//!   conn <tag> <endpoint> <endpoint> <link|->   e.g.  conn m2 host[0]/out sw/in[1] fast
+//!   yaml | transform | build
+//! Transcript answers:
+//!   mod/gate/sub/conn -> ok <canonical dump of the parsed value> | err | panic   (FromStr)
+//!   yaml      -> same | differs | err | panic      (serde_yml text -> Def, compared with the Def
+//!                                                   assembled from the FromStr results)
+//!   transform -> L=<iteration order of the hash maps> R=ok:<tree> | err:<Kind>:<payload>@<span>
+//!                | panic | noparse
+//!   build     -> L=<…> R=ok:<modules, gates, connection slots, channel metrics>
+//!                | err:<Kind>:… | panic | notransform | noparse
 use crate::rng::Rng;
-use crate::util::{cases, guarded, hval};
+use crate::util::{cases, guarded};
+use des::net::gate::Connection;
+use des::net::module::Module;
+use des::net::ndl::Registry;
+use des::net::{ObjectPath, Sim};
+use des::prelude::GateRef;
+use des_net_utils::ndl::def::{
+    ConnectionDef, ConnectionEndpointDef, Def, FieldDef, Kardinality, LinkDef, ModuleDef,
+    ModuleGenericsDef, TypClause,
+};
+use des_net_utils::ndl::error::{Error, ErrorKind};
+use des_net_utils::ndl::transform;
+use des_net_utils::ndl::tree::{ConnectionEndpoint, Node};
+use std::fmt::Write;
+use std::str::FromStr;
+use std::sync::{Arc, Mutex};
 
-pub fn gen(_seed: u64, _count: usize, _thorough: bool) -> String {
-    String::new()
+// ---------------------------------------------------------------------------------------------
+// escaping / canonical dumps
+// ---------------------------------------------------------------------------------------------
+
+fn esc_with(s: &str, safe: &str) -> String {
+    if s.is_empty() {
+        return "%;".to_string();
+    }
+    let mut o = String::new();
+    for c in s.chars() {
+        if c.is_ascii_alphanumeric() || c == '_' || safe.contains(c) {
+            o.push(c);
+        } else {
+            write!(o, "%{:x};", c as u32).unwrap();
+        }
+    }
+    o
+}
+/// escaping of script strings (readable)
+fn esc(s: &str) -> String {
+    esc_with(s, "()[]/<,+-")
+}
+/// escaping inside canonical dumps (only identifiers stay)
+fn e(s: &str) -> String {
+    esc_with(s, "")
+}
+fn unesc(s: &str) -> String {
+    let mut o = String::new();
+    let mut it = s.chars();
+    while let Some(c) = it.next() {
+        if c == '%' {
+            let mut h = String::new();
+            for d in it.by_ref() {
+                if d == ';' {
+                    break;
+                }
+                h.push(d);
+            }
+            if let Some(ch) = u32::from_str_radix(&h, 16).ok().and_then(char::from_u32) {
+                o.push(ch);
+            }
+        } else {
+            o.push(c);
+        }
+    }
+    o
 }
 
-pub fn exec(_input: &str) -> String {
-    String::new()
+fn d_field(f: &FieldDef) -> String {
+    match f.kardinality {
+        Kardinality::Atom => e(&f.ident),
+        Kardinality::Cluster(n) => format!("{}[{}]", e(&f.ident), n),
+    }
+}
+fn d_gen(t: &TypClause<ModuleGenericsDef>) -> String {
+    let a: Vec<String> = t.args.iter().map(|g| format!("{}<{}", e(&g.binding), e(&g.bound))).collect();
+    format!("{}({})", e(&t.ident), a.join(","))
+}
+fn d_typ(t: &TypClause<String>) -> String {
+    let a: Vec<String> = t.args.iter().map(|g| e(g)).collect();
+    format!("{}({})", e(&t.ident), a.join(","))
+}
+fn d_ep(p: &ConnectionEndpointDef) -> String {
+    p.accessors.iter().map(d_field).collect::<Vec<_>>().join("/")
+}
+fn ms(v: f64) -> i64 {
+    (v * 1000.0).round() as i64
+}
+fn d_link(l: &LinkDef) -> String {
+    format!(
+        "{}/{}/{}/{}",
+        ms(l.latency),
+        ms(l.jitter),
+        l.bitrate,
+        l.other.get("queuesize").cloned().unwrap_or_else(|| "-".to_string())
+    )
+}
+fn d_cep(p: &ConnectionEndpoint) -> String {
+    p.accessors
+        .iter()
+        .map(|a| match a.index {
+            Some(i) => format!("{}[{}]", e(&a.name), i),
+            None => e(&a.name),
+        })
+        .collect::<Vec<_>>()
+        .join("/")
+}
+fn d_node(n: &Node) -> String {
+    let mut gates: Vec<String> = n.gates.iter().map(d_field).collect();
+    gates.sort();
+    let subs: Vec<String> = n.submodules.iter().map(|s| format!("{}={}", d_field(&s.name), d_node(&s.typ))).collect();
+    let conns: Vec<String> = n
+        .connections
+        .iter()
+        .map(|c| {
+            format!(
+                "{}~{}@{}",
+                d_cep(&c.peers[0]),
+                d_cep(&c.peers[1]),
+                c.link.as_ref().map(d_link).unwrap_or_else(|| "-".to_string())
+            )
+        })
+        .collect();
+    format!("N{{{};{};{};{}}}", e(&n.typ), gates.join(","), subs.join(","), conns.join(","))
+}
+fn d_err(err: &Error) -> String {
+    use ErrorKind::*;
+    let (k, d): (&str, Vec<String>) = match &err.kind {
+        Other => ("Other", vec![]),
+        MissingRegistrySymbol(p, s) => ("MissingRegistrySymbol", vec![p.clone(), s.clone()]),
+        SymbolAlreadyDefined(s) => ("SymbolAlreadyDefined", vec![s.clone()]),
+        Io(_) => ("Io", vec![]),
+        UnknownLink(s) => ("UnknownLink", vec![s.clone()]),
+        UnknownModule(s) => ("UnknownModule", vec![s.clone()]),
+        UnresolvableDependency(v) => ("UnresolvableDependency", v.clone()),
+        InvalidGate(m, g) => ("InvalidGate", vec![m.clone(), g.clone()]),
+        InvalidSubmodule(m, s) => ("InvalidSubmodule", vec![m.clone(), s.clone()]),
+        UnknownGateInConnection(f) => ("UnknownGateInConnection", vec![f.to_string()]),
+        UnknownSubmoduleInConnection(f) => ("UnknownSubmoduleInConnection", vec![f.to_string()]),
+        ConnectionIndexOutOfBounds(f) => ("ConnectionIndexOutOfBounds", vec![f.to_string()]),
+        UnequalPeers(a, b) => ("UnequalPeers", vec![a.to_string(), b.to_string()]),
+        InvalidTypStatement(t, g) => (
+            "InvalidTypStatement",
+            vec![t.to_string(), TypClause { ident: t.ident.clone(), args: g.clone() }.to_string()],
+        ),
+        AssignedTypDoesNotConformToInterface(t) => ("AssignedTypDoesNotConformToInterface", vec![t.to_string()]),
+    };
+    let o = |x: &Option<String>| x.as_ref().map(|s| e(s)).unwrap_or_else(|| "-".to_string());
+    format!(
+        "err:{}:{}@{};{};{};{}",
+        k,
+        d.iter().map(|s| e(s)).collect::<Vec<_>>().join("|"),
+        o(&err.span.module),
+        o(&err.span.submodule),
+        o(&err.span.gate),
+        err.span.connection.map(|c| c.to_string()).unwrap_or_else(|| "-".to_string())
+    )
+}
+
+// ---------------------------------------------------------------------------------------------
+// executor
+// ---------------------------------------------------------------------------------------------
+
+#[derive(Default)]
+struct ModAcc {
+    tag: String,
+    key: Option<TypClause<ModuleGenericsDef>>,
+    bad: bool,
+    raw_key: String,
+    inherit: Option<String>,
+    gates: Vec<FieldDef>,
+    raw_gates: Vec<String>,
+    subs: Vec<(String, FieldDef, TypClause<String>)>,
+    raw_subs: Vec<(String, String)>,
+    stags: Vec<String>,
+    conns: Vec<ConnectionDef>,
+    raw_conns: Vec<(String, String, Option<String>)>,
+}
+
+struct Doc {
+    entry: String,
+    links: Vec<(String, i64, i64, i64, Option<String>)>,
+    mods: Vec<ModAcc>,
+}
+
+fn link_def(l: &(String, i64, i64, i64, Option<String>)) -> LinkDef {
+    let mut d = LinkDef { latency: l.1 as f64 / 1000.0, jitter: l.2 as f64 / 1000.0, bitrate: l.3 as i32, other: Default::default() };
+    if let Some(q) = &l.4 {
+        d.other.insert("queuesize".to_string(), q.clone());
+    }
+    d
+}
+
+impl Doc {
+    /// the `Def` assembled from the FromStr results (None if some clause did not parse) and the
+    /// tags in hash-map iteration order
+    fn def(&self) -> Option<(Def, String)> {
+        if self.mods.iter().any(|m| m.bad || m.key.is_none()) {
+            return None;
+        }
+        let mut def = Def { entry: self.entry.clone(), ..Default::default() };
+        for l in &self.links {
+            def.links.insert(l.0.clone(), link_def(l));
+        }
+        let mut mtag: Vec<(TypClause<ModuleGenericsDef>, usize)> = Vec::new();
+        for (i, m) in self.mods.iter().enumerate() {
+            let key = m.key.clone().unwrap();
+            let mut md = ModuleDef { inherit: m.inherit.clone(), gates: m.gates.clone(), submodules: Default::default(), connections: m.conns.clone() };
+            for (_, f, t) in &m.subs {
+                md.submodules.insert(f.clone(), t.clone());
+            }
+            def.modules.insert(key.clone(), md);
+            mtag.retain(|(k, _)| *k != key);
+            mtag.push((key, i));
+        }
+        let mut layout = Vec::new();
+        for (k, md) in def.modules.iter() {
+            let i = mtag.iter().find(|(kk, _)| kk == k).unwrap().1;
+            let m = &self.mods[i];
+            let mut st = Vec::new();
+            for (f, _) in md.submodules.iter() {
+                // the last sub line with this key provided the value
+                let s = m.subs.iter().rev().find(|(_, ff, _)| ff == f).unwrap();
+                st.push(s.0.clone());
+            }
+            layout.push(format!("{}:{}", m.tag, st.join(".")));
+        }
+        Some((def, layout.join(",")))
+    }
+
+    fn yaml(&self) -> String {
+        fn q(s: &str) -> String {
+            let mut o = String::from("\"");
+            for c in s.chars() {
+                match c {
+                    '"' => o.push_str("\\\""),
+                    '\\' => o.push_str("\\\\"),
+                    c if (c as u32) < 0x20 || (c as u32) == 0x7f || (c as u32) > 0x7e => {
+                        if (c as u32) <= 0xffff {
+                            write!(o, "\\u{:04x}", c as u32).unwrap()
+                        } else {
+                            write!(o, "\\U{:08x}", c as u32).unwrap()
+                        }
+                    }
+                    c => o.push(c),
+                }
+            }
+            o.push('"');
+            o
+        }
+        let mut y = String::new();
+        writeln!(y, "entry: {}", q(&self.entry)).unwrap();
+        if !self.mods.is_empty() {
+            writeln!(y, "modules:").unwrap();
+            for m in &self.mods {
+                writeln!(y, "  {}:", q(&m.raw_key)).unwrap();
+                let mut any = false;
+                if let Some(i) = &m.inherit {
+                    writeln!(y, "    inherit: {}", q(i)).unwrap();
+                    any = true;
+                }
+                if !m.raw_gates.is_empty() {
+                    any = true;
+                    writeln!(y, "    gates:").unwrap();
+                    for g in &m.raw_gates {
+                        writeln!(y, "      - {}", q(g)).unwrap();
+                    }
+                }
+                if !m.raw_subs.is_empty() {
+                    any = true;
+                    writeln!(y, "    submodules:").unwrap();
+                    for (k, v) in &m.raw_subs {
+                        writeln!(y, "      {}: {}", q(k), q(v)).unwrap();
+                    }
+                }
+                if !m.raw_conns.is_empty() {
+                    any = true;
+                    writeln!(y, "    connections:").unwrap();
+                    for (a, b, l) in &m.raw_conns {
+                        writeln!(y, "      - peers: [{}, {}]", q(a), q(b)).unwrap();
+                        if let Some(l) = l {
+                            writeln!(y, "        link: {}", q(l)).unwrap();
+                        }
+                    }
+                }
+                if !any {
+                    writeln!(y, "    {{}}").unwrap();
+                }
+            }
+        }
+        if !self.links.is_empty() {
+            writeln!(y, "links:").unwrap();
+            for l in &self.links {
+                writeln!(y, "  {}:", q(&l.0)).unwrap();
+                writeln!(y, "    latency: {:?}", l.1 as f64 / 1000.0).unwrap();
+                writeln!(y, "    jitter: {:?}", l.2 as f64 / 1000.0).unwrap();
+                writeln!(y, "    bitrate: {}", l.3 as i32).unwrap();
+                if let Some(qs) = &l.4 {
+                    writeln!(y, "    queuesize: {}", q(qs)).unwrap();
+                }
+            }
+        }
+        y
+    }
+}
+
+#[derive(Default)]
+struct Triv;
+impl Module for Triv {}
+
+/// the symbols the registry resolves (everything else: `MissingRegistrySymbol`)
+#[allow(dead_code)]
+pub const POOL: [&str; 14] = ["A", "B", "C", "D", "E", "F", "G", "H", "I", "J", "K", "L", "T", "Main"];
+
+macro_rules! reg_chain {
+    ($log:expr; $($s:literal),*) => {{
+        let r = Registry::new();
+        $(
+            let lg = $log.clone();
+            let r = r.symbol_fn($s, move |p: &ObjectPath| {
+                lg.lock().unwrap().push((p.as_str().to_string(), $s.to_string()));
+                Triv
+            });
+        )*
+        r
+    }};
+}
+
+fn d_gate_ref(g: &GateRef) -> String {
+    format!("{}#{}:{}", e(g.owner().path().as_str()), e(g.name()), g.pos())
+}
+
+fn d_slot(g: &GateRef, slot: usize) -> String {
+    // `next_hop` of a connection "arriving" through slot `1 - slot` reads slot `slot`
+    let probe = Connection { endpoint: g.clone(), endpoint_id: 1 - slot, channel: None };
+    match probe.next_hop() {
+        None => "-".to_string(),
+        Some(c) => {
+            let ch = match c.channel {
+                None => "-".to_string(),
+                Some(ch) => {
+                    let m = ch.metrics();
+                    let q = match m.drop_behaviour {
+                        des::prelude::ChannelDropBehaviour::Drop => "drop".to_string(),
+                        des::prelude::ChannelDropBehaviour::Queue(None) => "inf".to_string(),
+                        des::prelude::ChannelDropBehaviour::Queue(Some(n)) => n.to_string(),
+                    };
+                    format!("{}/{}/{}/{}", m.bitrate, m.latency.as_nanos(), m.jitter.as_nanos(), q)
+                }
+            };
+            format!("{}@{}", d_gate_ref(&c.endpoint), ch)
+        }
+    }
+}
+
+fn build(def: &Def) -> String {
+    let log: Arc<Mutex<Vec<(String, String)>>> = Arc::new(Mutex::new(Vec::new()));
+    let log2 = log.clone();
+    let r = guarded(move || {
+        let mut reg = reg_chain!(log2; "A", "B", "C", "D", "E", "F", "G", "H", "I", "J", "K", "L", "T", "Main");
+        let mut sim = Sim::new(());
+        match sim.nodes_from_ndl(def, &mut reg) {
+            Err(err) => d_err(&err),
+            Ok(()) => {
+                let sim = sim.freeze();
+                let syms = log2.lock().unwrap().clone();
+                let mut mods: Vec<String> = Vec::new();
+                let paths: Vec<ObjectPath> = sim.nodes().collect();
+                for p in paths {
+                    let m = sim.globals().get(&p).expect("listed node exists");
+                    let sym = syms.iter().find(|(pp, _)| pp == p.as_str()).map(|x| x.1.clone()).unwrap_or_else(|| "?".to_string());
+                    let mut gates: Vec<String> = m
+                        .gates()
+                        .iter()
+                        .map(|g| format!("{}:{}:{}:{}|{}", e(g.name()), g.size(), g.pos(), d_slot(g, 0), d_slot(g, 1)))
+                        .collect();
+                    gates.sort();
+                    mods.push(format!("M{{{};{};{}}}", e(p.as_str()), e(&sym), gates.join(",")));
+                }
+                mods.sort();
+                format!("ok:{}", mods.join(""))
+            }
+        }
+    });
+    drop(log);
+    match r {
+        Ok(s) => s,
+        Err(_) => "panic".to_string(),
+    }
+}
+
+fn opt(s: &str) -> Option<String> {
+    if s == "-" {
+        None
+    } else {
+        Some(unesc(s))
+    }
+}
+
+pub fn exec(input: &str) -> String {
+    let mut out = String::new();
+    for (header, body) in cases(input) {
+        writeln!(out, "{header}").unwrap();
+        let mut doc = Doc { entry: String::new(), links: Vec::new(), mods: Vec::new() };
+        for line in body {
+            let tok: Vec<&str> = line.split_whitespace().collect();
+            match tok.as_slice() {
+                ["entry", s] => {
+                    doc.entry = unesc(s);
+                    writeln!(out, "{line}").unwrap();
+                }
+                ["link", name, lat, jit, bit, q] => {
+                    let p = |x: &str| x.parse::<i64>().unwrap_or(0);
+                    doc.links.push((unesc(name), p(lat), p(jit), p(bit), opt(q)));
+                    writeln!(out, "{line}").unwrap();
+                }
+                ["mod", tag, raw] => {
+                    if doc.mods.iter().any(|m| m.tag == *tag) {
+                        continue;
+                    }
+                    let raw = unesc(raw);
+                    let mut m = ModAcc { tag: tag.to_string(), raw_key: raw.clone(), ..Default::default() };
+                    let ans = match guarded(|| TypClause::<ModuleGenericsDef>::from_str(&raw)) {
+                        Ok(Ok(k)) => {
+                            let a = format!("ok {}", d_gen(&k));
+                            m.key = Some(k);
+                            a
+                        }
+                        Ok(Err(_)) => {
+                            m.bad = true;
+                            "err".to_string()
+                        }
+                        Err(_) => {
+                            m.bad = true;
+                            "panic".to_string()
+                        }
+                    };
+                    doc.mods.push(m);
+                    writeln!(out, "{line} -> {ans}").unwrap();
+                }
+                ["inherit", tag, sym] => {
+                    if let Some(m) = doc.mods.iter_mut().find(|m| m.tag == *tag) {
+                        m.inherit = Some(unesc(sym));
+                        writeln!(out, "{line}").unwrap();
+                    }
+                }
+                ["gate", tag, raw] => {
+                    if let Some(m) = doc.mods.iter_mut().find(|m| m.tag == *tag) {
+                        let raw = unesc(raw);
+                        m.raw_gates.push(raw.clone());
+                        let ans = match guarded(|| FieldDef::from_str(&raw)) {
+                            Ok(Ok(f)) => {
+                                let a = format!("ok {}", d_field(&f));
+                                m.gates.push(f);
+                                a
+                            }
+                            Ok(Err(_)) => {
+                                m.bad = true;
+                                "err".to_string()
+                            }
+                            Err(_) => {
+                                m.bad = true;
+                                "panic".to_string()
+                            }
+                        };
+                        writeln!(out, "{line} -> {ans}").unwrap();
+                    }
+                }
+                ["sub", tag, stag, rawf, rawt] => {
+                    if let Some(m) = doc.mods.iter_mut().find(|m| m.tag == *tag) {
+                        if m.stags.iter().any(|t| t == stag) {
+                            continue;
+                        }
+                        m.stags.push(stag.to_string());
+                        let (rawf, rawt) = (unesc(rawf), unesc(rawt));
+                        m.raw_subs.push((rawf.clone(), rawt.clone()));
+                        let ans = match guarded(|| (FieldDef::from_str(&rawf), TypClause::<String>::from_str(&rawt))) {
+                            Ok((Ok(f), Ok(t))) => {
+                                let a = format!("ok {} {}", d_field(&f), d_typ(&t));
+                                m.subs.push((stag.to_string(), f, t));
+                                a
+                            }
+                            Ok(_) => {
+                                m.bad = true;
+                                "err".to_string()
+                            }
+                            Err(_) => {
+                                m.bad = true;
+                                "panic".to_string()
+                            }
+                        };
+                        writeln!(out, "{line} -> {ans}").unwrap();
+                    }
+                }
+                ["conn", tag, a, b, l] => {
+                    if let Some(m) = doc.mods.iter_mut().find(|m| m.tag == *tag) {
+                        let (a, b, l) = (unesc(a), unesc(b), opt(l));
+                        m.raw_conns.push((a.clone(), b.clone(), l.clone()));
+                        let ans = match guarded(|| (ConnectionEndpointDef::from_str(&a), ConnectionEndpointDef::from_str(&b))) {
+                            Ok((Ok(x), Ok(y))) => {
+                                let s = format!("ok {} {}", d_ep(&x), d_ep(&y));
+                                m.conns.push(ConnectionDef { peers: [x, y], link: l });
+                                s
+                            }
+                            Ok(_) => {
+                                m.bad = true;
+                                "err".to_string()
+                            }
+                            Err(_) => {
+                                m.bad = true;
+                                "panic".to_string()
+                            }
+                        };
+                        writeln!(out, "{line} -> {ans}").unwrap();
+                    }
+                }
+                ["yaml"] => {
+                    let y = doc.yaml();
+                    let ans = match guarded(|| serde_yml::from_str::<Def>(&y)) {
+                        Err(_) => "panic",
+                        Ok(Err(_)) => "err",
+                        Ok(Ok(d)) => match doc.def() {
+                            Some((d2, _)) if d == d2 => "same",
+                            _ => "differs",
+                        },
+                    };
+                    writeln!(out, "{line} -> {ans}").unwrap();
+                }
+                ["transform"] => {
+                    let ans = match doc.def() {
+                        None => "noparse".to_string(),
+                        Some((def, layout)) => {
+                            let r = match guarded(|| transform(&def)) {
+                                Err(_) => "panic".to_string(),
+                                Ok(Err(err)) => d_err(&err),
+                                Ok(Ok(n)) => format!("ok:{}", d_node(&n)),
+                            };
+                            format!("L={layout} R={r}")
+                        }
+                    };
+                    writeln!(out, "{line} -> {ans}").unwrap();
+                }
+                ["build"] => {
+                    let ans = match doc.def() {
+                        None => "noparse".to_string(),
+                        Some((def, layout)) => {
+                            let r = match guarded(|| transform(&def)) {
+                                Ok(Ok(_)) => build(&def),
+                                _ => "notransform".to_string(),
+                            };
+                            format!("L={layout} R={r}")
+                        }
+                    };
+                    writeln!(out, "{line} -> {ans}").unwrap();
+                }
+                _ => {}
+            }
+        }
+        writeln!(out, "end").unwrap();
+    }
+    out
+}
+
+// ---------------------------------------------------------------------------------------------
+// generator
+// ---------------------------------------------------------------------------------------------
+
+#[derive(Clone)]
+struct GMod {
+    #[allow(dead_code)]
+    tag: String,
+    name: String,
+    /// generic parameter (binding, bound module index)
+    generic: Option<(String, usize)>,
+    inherit: Option<usize>,
+    /// effective gates (own + inherited): (ident, cluster size or 0 for an atom)
+    gates: Vec<(String, usize)>,
+    /// effective submodules: (ident, cluster size or 0, index of the module type that provides the gates)
+    subs: Vec<(String, usize, usize)>,
+    lines: Vec<String>,
+    /// gate instances already wired by this module type (own + inherited connections)
+    used: Vec<String>,
+}
+
+const GATE_NAMES: [&str; 6] = ["in", "out", "port", "p", "q", "up"];
+const SUB_NAMES: [&str; 7] = ["a", "b", "c", "n", "s", "host", "sw"];
+const MOD_NAMES: [&str; 12] = ["A", "B", "C", "D", "E", "F", "G", "H", "I", "J", "K", "L"];
+
+fn field(name: &str, size: usize) -> String {
+    if size == 0 {
+        name.to_string()
+    } else {
+        format!("{name}[{size}]")
+    }
+}
+
+/// an endpoint string (relative to module `mi`), the number of gates it denotes and the gate
+/// instances it expands to
+fn gen_endpoint(r: &mut Rng, mods: &[GMod], mi: usize, want: Option<usize>) -> Option<(String, usize, Vec<String>)> {
+    for _ in 0..8 {
+        let mut path: Vec<String> = Vec::new();
+        let mut insts: Vec<String> = vec![String::new()];
+        let mut cur = mi;
+        let depth = if mods[cur].subs.is_empty() { 0 } else { [0, 1, 1, 1, 2][r.below(5) as usize] };
+        let step = |insts: &mut Vec<String>, name: &str, size: usize, idx: Option<usize>| {
+            let mut n = Vec::new();
+            for p in insts.iter() {
+                match (size, idx) {
+                    (0, _) => n.push(format!("{p}/{name}")),
+                    (_, Some(i)) => n.push(format!("{p}/{name}[{i}]")),
+                    (s, None) => (0..s).for_each(|i| n.push(format!("{p}/{name}[{i}]"))),
+                }
+            }
+            *insts = n;
+        };
+        for _ in 0..depth {
+            if mods[cur].subs.is_empty() {
+                break;
+            }
+            let (name, size, ty) = r.pick(&mods[cur].subs).clone();
+            if size > 0 && !(insts.len() == 1 && r.chance(1, 3)) {
+                let i = r.below(size as u64) as usize;
+                path.push(format!("{name}[{i}]"));
+                step(&mut insts, &name, size, Some(i));
+            } else {
+                path.push(name.clone());
+                step(&mut insts, &name, size, None);
+            }
+            cur = ty;
+        }
+        if mods[cur].gates.is_empty() {
+            continue;
+        }
+        let (g, size) = r.pick(&mods[cur].gates).clone();
+        if size > 0 && !(r.chance(1, 3)) {
+            let i = r.below(size as u64) as usize;
+            path.push(format!("{g}[{i}]"));
+            step(&mut insts, &g, size, Some(i));
+        } else {
+            path.push(g.clone());
+            step(&mut insts, &g, size, None);
+        }
+        if let Some(w) = want {
+            if w != insts.len() {
+                continue;
+            }
+        }
+        return Some((path.join("/"), insts.len(), insts));
+    }
+    None
+}
+
+fn gen_valid(r: &mut Rng, thorough: bool) -> (Vec<GMod>, Vec<String>, String) {
+    let k = if thorough { r.range(2, 9) } else { r.range(2, 7) } as usize;
+    let mut names: Vec<&str> = MOD_NAMES.to_vec();
+    // shuffle the names so hash order and dependency order are unrelated
+    for i in (1..names.len()).rev() {
+        names.swap(i, r.below(i as u64 + 1) as usize);
+    }
+    let mut links = Vec::new();
+    let nlinks = r.below(3);
+    for (i, n) in ["fast", "slow", "wan"].iter().enumerate() {
+        if (i as u64) < nlinks {
+            let q = if r.chance(1, 2) { r.below(64).to_string() } else { "-".to_string() };
+            links.push(format!("link {n} {} {} {} {q}", r.below(200), r.below(20), r.below(1_000_000)));
+        }
+    }
+    let link_names: Vec<&str> = ["fast", "slow", "wan"][..nlinks as usize].to_vec();
+    let mut mods: Vec<GMod> = Vec::new();
+    for i in 0..k {
+        let tag = format!("m{i}");
+        let name = names[i].to_string();
+        let mut m = GMod { tag: tag.clone(), name: name.clone(), generic: None, inherit: None, gates: vec![], subs: vec![], lines: vec![], used: vec![] };
+        let plain: Vec<usize> = (0..i).filter(|&j| mods[j].generic.is_none()).collect();
+        // generics
+        if !plain.is_empty() && r.chance(1, 4) {
+            let b = *r.pick(&plain);
+            m.generic = Some(("T".to_string(), b));
+        }
+        let key = match &m.generic {
+            Some((bind, b)) => format!("{name}({bind} <- {})", mods[*b].name),
+            None => name.clone(),
+        };
+        m.lines.push(format!("mod {tag} {}", esc(&key)));
+        // inheritance
+        if !plain.is_empty() && r.chance(1, 3) {
+            let p = *r.pick(&plain);
+            m.inherit = Some(p);
+            m.gates = mods[p].gates.clone();
+            m.subs = mods[p].subs.clone();
+            m.used = mods[p].used.clone();
+            m.lines.push(format!("inherit {tag} {}", mods[p].name));
+        }
+        // gates
+        for _ in 0..r.below(4) {
+            let g = *r.pick(&GATE_NAMES);
+            if m.gates.iter().any(|x| x.0 == g) {
+                continue;
+            }
+            let size = if r.chance(1, 2) { 0 } else { r.range(1, 4) as usize };
+            m.gates.push((g.to_string(), size));
+            m.lines.push(format!("gate {tag} {}", field(g, size)));
+        }
+        // submodules
+        let mut sc = 0;
+        if let Some((bind, b)) = m.generic.clone() {
+            let size = if r.chance(1, 2) { 0 } else { r.range(1, 3) as usize };
+            m.subs.push(("t".to_string(), size, b));
+            m.lines.push(format!("sub {tag} s{i}_{sc} {} {bind}", field("t", size)));
+            sc += 1;
+        }
+        if i > 0 {
+            for _ in 0..r.below(4) {
+                let s = *r.pick(&SUB_NAMES);
+                if m.subs.iter().any(|x| x.0 == s) {
+                    continue;
+                }
+                let size = if r.chance(1, 2) { 0 } else { r.range(1, 3) as usize };
+                let ty = r.below(i as u64) as usize;
+                let tys = match &mods[ty].generic {
+                    None => mods[ty].name.clone(),
+                    Some((_, bound)) => {
+                        // a conforming argument: the bound itself or a module inheriting it
+                        let cands: Vec<usize> = (0..i)
+                            .filter(|&j| mods[j].generic.is_none() && (j == *bound || mods[j].inherit == Some(*bound)))
+                            .collect();
+                        let c = if cands.is_empty() || r.chance(1, 10) { r.below(i as u64) as usize } else { *r.pick(&cands) };
+                        format!("{}({})", mods[ty].name, mods[c].name)
+                    }
+                };
+                m.subs.push((s.to_string(), size, ty));
+                m.lines.push(format!("sub {tag} s{i}_{sc} {} {}", field(s, size), esc(&tys)));
+                sc += 1;
+            }
+        }
+        mods.push(m);
+        // connections
+        for _ in 0..r.below(5) {
+            let Some((a, n, ia)) = gen_endpoint(r, &mods, i, None) else { continue };
+            let want = if r.chance(19, 20) { Some(n) } else { None };
+            let Some((b, _, ib)) = gen_endpoint(r, &mods, i, want) else { continue };
+            // keep the wiring realisable most of the time: every gate instance is used at most
+            // once per module type (so at most twice overall: inside and from the parent)
+            let clash = ia.iter().any(|x| ib.contains(x)) || ia.iter().chain(ib.iter()).any(|x| mods[i].used.contains(x));
+            if clash && r.chance(19, 20) {
+                continue;
+            }
+            mods[i].used.extend(ia.into_iter().chain(ib));
+            let l = if !link_names.is_empty() && r.chance(1, 2) { r.pick(&link_names).to_string() } else { "-".to_string() };
+            mods[i].lines.push(format!("conn {tag} {} {} {l}", esc(&a), esc(&b)));
+        }
+    }
+    let entry = if r.chance(4, 5) { mods[k - 1].name.clone() } else { r.pick(&mods).name.clone() };
+    (mods, links, entry)
+}
+
+/// single-point mutations of a script (a list of lines)
+fn mutate(r: &mut Rng, lines: &mut Vec<String>) -> &'static str {
+    let idx_of = |lines: &Vec<String>, r: &mut Rng, p: &str| -> Option<usize> {
+        let c: Vec<usize> = lines.iter().enumerate().filter(|(_, l)| l.starts_with(p)).map(|x| x.0).collect();
+        if c.is_empty() {
+            None
+        } else {
+            Some(*r.pick(&c))
+        }
+    };
+    let set_tok = |lines: &mut Vec<String>, i: usize, t: usize, v: String| {
+        let mut tok: Vec<String> = lines[i].split(' ').map(|s| s.to_string()).collect();
+        if t < tok.len() {
+            tok[t] = v;
+        }
+        lines[i] = tok.join(" ");
+    };
+    let tok_of = |lines: &Vec<String>, i: usize, t: usize| -> String { lines[i].split(' ').nth(t).unwrap_or("").to_string() };
+    let bad_clauses = ["G(C", "G(", "(", "G(C))", "G()", "G(C,D)", "G(C, )", "G(, C)", " G", "G (C)", "G(C)x", "G)", "T(I)", "G(T)", ""];
+    let bad_fields = ["x[", "x]", "x[]", "x[a]", "x[-1]", "x[+2]", "x[1]]", "x[[1]", "[1]", "x[1][2]", "x[18446744073709551616]", "x[0]", "", "x "];
+    match r.below(20) {
+        0 => {
+            // dangling type name of a submodule
+            if let Some(i) = idx_of(lines, r, "sub ") {
+                set_tok(lines, i, 4, if r.chance(1, 2) { "Zz".into() } else { "Zz(C)".into() });
+            }
+            "dangling-type"
+        }
+        1 => {
+            if let Some(i) = idx_of(lines, r, "inherit ") {
+                set_tok(lines, i, 2, "Zz".into());
+            } else if let Some(i) = idx_of(lines, r, "entry ") {
+                set_tok(lines, i, 1, "Zz".into());
+            }
+            "dangling-parent"
+        }
+        2 => {
+            if let Some(i) = idx_of(lines, r, "conn ") {
+                if r.chance(1, 2) {
+                    set_tok(lines, i, 4, "nolink".into());
+                } else {
+                    let t = 2 + r.below(2) as usize;
+                    let ep = tok_of(lines, i, t);
+                    let mut parts: Vec<String> = ep.split('/').map(|s| s.to_string()).collect();
+                    let k = r.below(parts.len() as u64) as usize;
+                    parts[k] = if r.chance(1, 2) { "zz".into() } else { "zz[0]".into() };
+                    set_tok(lines, i, t, parts.join("/"));
+                }
+            }
+            "dangling-conn"
+        }
+        3 => {
+            // off-by-one / shifted index in a connection endpoint
+            if let Some(i) = idx_of(lines, r, "conn ") {
+                let t = 2 + r.below(2) as usize;
+                let ep = tok_of(lines, i, t);
+                let mut parts: Vec<String> = ep.split('/').map(|s| s.to_string()).collect();
+                let k = r.below(parts.len() as u64) as usize;
+                if let Some(p) = parts[k].find('[') {
+                    let n: usize = parts[k].get(p + 1..parts[k].len().saturating_sub(1)).and_then(|x| x.parse().ok()).unwrap_or(0);
+                    parts[k] = format!("{}[{}]", &parts[k][..p], n + 1 + r.below(3) as usize);
+                } else {
+                    parts[k] = format!("{}[{}]", parts[k], r.below(4));
+                }
+                set_tok(lines, i, t, parts.join("/"));
+            }
+            "index"
+        }
+        4 => {
+            let p = if r.chance(1, 2) { "gate " } else { "sub " };
+            if let Some(i) = idx_of(lines, r, p) {
+                let t = if p == "gate " { 2 } else { 3 };
+                let f = tok_of(lines, i, t);
+                let base = f.split('[').next().unwrap_or("x").to_string();
+                set_tok(lines, i, t, format!("{base}[0]"));
+            }
+            "zero-cluster"
+        }
+        5 => {
+            // cycle: an early module refers to a later one (or itself)
+            let ms: Vec<usize> = lines.iter().enumerate().filter(|(_, l)| l.starts_with("mod ")).map(|x| x.0).collect();
+            if ms.len() >= 1 {
+                let a = r.below(ms.len() as u64) as usize;
+                let b = r.range(a as u64, ms.len() as u64 - 1) as usize;
+                let tag = tok_of(lines, ms[a], 1);
+                let name = unesc(&tok_of(lines, ms[b], 2)).split('(').next().unwrap_or("A").trim().to_string();
+                let l = if r.chance(1, 2) { format!("sub {tag} sx cyc {name}") } else { format!("inherit {tag} {name}") };
+                lines.insert(ms[a] + 1, l);
+            }
+            "cycle"
+        }
+        6 => {
+            if let Some(i) = idx_of(lines, r, "sub ") {
+                set_tok(lines, i, 4, esc(*r.pick(&bad_clauses)));
+            }
+            "bad-sub-clause"
+        }
+        7 => {
+            if let Some(i) = idx_of(lines, r, "mod ") {
+                let keys = ["A(T <- I", "A(T <- I))", "A(T < I)", "A(T)", "A()", "A(T <- I, T <- I)", "A(T <- I,U <- I)", "A( T<-I )", "A(T <- )", "A(T <- I, U <- Zz)", "(T <- I)", "A(T <- T)"];
+                let name = unesc(&tok_of(lines, i, 2)).split('(').next().unwrap_or("A").to_string();
+                let k = r.pick(&keys).replacen('A', &name, 1);
+                set_tok(lines, i, 2, esc(&k));
+            }
+            "bad-mod-clause"
+        }
+        8 => {
+            let p = if r.chance(1, 2) { "gate " } else { "sub " };
+            if let Some(i) = idx_of(lines, r, p) {
+                let t = if p == "gate " { 2 } else { 3 };
+                set_tok(lines, i, t, esc(*r.pick(&bad_fields)));
+            }
+            "bad-field"
+        }
+        9 => {
+            if let Some(i) = idx_of(lines, r, "conn ") {
+                let eps = ["a//b", "/", "a/", "/in", "in[", "in]", "a[1]/in[x]", "", "a/b/c/d", "in[1][2]"];
+                set_tok(lines, i, 2 + r.below(2) as usize, esc(*r.pick(&eps)));
+            }
+            "bad-endpoint"
+        }
+        10 => {
+            // generic abuse
+            if let Some(i) = idx_of(lines, r, "sub ") {
+                let t = tok_of(lines, i, 4);
+                let base = t.split('(').next().unwrap_or("A").to_string();
+                let other = *r.pick(&MOD_NAMES);
+                let v = match r.below(5) {
+                    0 => format!("{base}({other})"),
+                    1 => format!("{base}({other},%20;{other})"),
+                    2 => base,
+                    3 => format!("T({other})"),
+                    _ => format!("{base}(T)"),
+                };
+                set_tok(lines, i, 4, v);
+            }
+            "generic-abuse"
+        }
+        11 => {
+            // unequal cluster sizes / changed sizes
+            let p = if r.chance(1, 2) { "gate " } else { "sub " };
+            if let Some(i) = idx_of(lines, r, p) {
+                let t = if p == "gate " { 2 } else { 3 };
+                let f = tok_of(lines, i, t);
+                let base = f.split('[').next().unwrap_or("x").to_string();
+                let v = if f.contains('[') && r.chance(1, 3) { base } else { format!("{base}[{}]", r.range(1, 5)) };
+                set_tok(lines, i, t, v);
+            }
+            "resize"
+        }
+        12 => {
+            // ambiguous / duplicate declarations
+            let p = if r.chance(1, 2) { "gate " } else { "sub " };
+            if let Some(i) = idx_of(lines, r, p) {
+                let t = if p == "gate " { 2 } else { 3 };
+                let f = tok_of(lines, i, t);
+                let base = f.split('[').next().unwrap_or("x").to_string();
+                let mut l = lines[i].clone();
+                if r.chance(1, 2) {
+                    l = l.replacen(&f, &format!("{base}[{}]", r.range(1, 3)), 1);
+                }
+                if p == "sub " {
+                    l = l.replacen(" s", &format!(" sd{}x", r.below(1_000_000)), 1);
+                }
+                lines.insert(i + 1, l);
+            }
+            "duplicate"
+        }
+        13 => {
+            let n = lines.len();
+            if n > 0 {
+                lines.remove(r.below(n as u64) as usize);
+            }
+            "delete-line"
+        }
+        14 => {
+            // unrealisable wiring: repeat / self connection
+            if let Some(i) = idx_of(lines, r, "conn ") {
+                let a = tok_of(lines, i, 2);
+                let tag = tok_of(lines, i, 1);
+                let l = if r.chance(1, 2) { format!("conn {tag} {a} {a} -") } else { lines[i].clone() };
+                lines.insert(i + 1, l);
+            }
+            "rewire"
+        }
+        15 => {
+            if let Some(i) = idx_of(lines, r, "link ") {
+                set_tok(lines, i, 2 + r.below(2) as usize, format!("-{}", r.range(1, 9)));
+            }
+            "negative-link"
+        }
+        16 => {
+            // duplicate module identifier (two keys, same ident)
+            if let Some(i) = idx_of(lines, r, "mod ") {
+                let name = unesc(&tok_of(lines, i, 2)).split('(').next().unwrap_or("A").to_string();
+                let v = if r.chance(1, 2) { format!("{name}(U <- {})", r.pick(&MOD_NAMES)) } else { name };
+                let n = lines.len();
+                lines.insert(n.saturating_sub(3), format!("mod mdup {}", esc(&v)));
+                if r.chance(1, 2) {
+                    lines.insert((n + 1).saturating_sub(3).min(lines.len()), "gate mdup extra".to_string());
+                }
+            }
+            "dup-ident"
+        }
+        17 => {
+            // a symbol the registry does not know
+            if let Some(i) = idx_of(lines, r, "mod ") {
+                let old = unesc(&tok_of(lines, i, 2)).split('(').next().unwrap_or("A").to_string();
+                for l in lines.iter_mut() {
+                    let mut tok: Vec<String> = l.split(' ').map(|s| s.to_string()).collect();
+                    for t in tok.iter_mut().skip(1) {
+                        if *t == old {
+                            *t = "Xx".to_string();
+                        } else if t.starts_with(&format!("{old}(")) {
+                            *t = t.replacen(&old, "Xx", 1);
+                        } else if t.ends_with(&format!("<-%20;{old})")) {
+                            *t = t.replace(&format!("<-%20;{old})"), "<-%20;Xx)");
+                        } else if t.ends_with(&format!("({old})")) {
+                            *t = t.replace(&format!("({old})"), "(Xx)");
+                        }
+                    }
+                    *l = tok.join(" ");
+                }
+            }
+            "unregistered"
+        }
+        18 => {
+            // swap two lines (declaration order must not matter for maps, does for connections)
+            let n = lines.len();
+            if n > 4 {
+                let a = r.below(n as u64 - 3) as usize;
+                let b = r.below(n as u64 - 3) as usize;
+                lines.swap(a, b);
+            }
+            "swap"
+        }
+        _ => {
+            // whitespace inside clauses
+            if let Some(i) = idx_of(lines, r, "sub ") {
+                let t = tok_of(lines, i, 4);
+                let v = match r.below(3) {
+                    0 => format!("%20;{t}"),
+                    1 => t.replace('(', "%20;("),
+                    _ => t.replace(')', "%20;)"),
+                };
+                set_tok(lines, i, 4, v);
+            }
+            "whitespace"
+        }
+    }
+}
+
+pub fn gen(seed: u64, count: usize, thorough: bool) -> String {
+    let mut r = Rng::new(seed);
+    let mut out = String::new();
+    for k in 0..count {
+        let (mods, links, entry) = gen_valid(&mut r, thorough);
+        let mut lines: Vec<String> = Vec::new();
+        lines.push(format!("entry {entry}"));
+        lines.extend(links);
+        // interleave module blocks in random order (hash maps: order must not matter)
+        let mut order: Vec<usize> = (0..mods.len()).collect();
+        for i in (1..order.len()).rev() {
+            order.swap(i, r.below(i as u64 + 1) as usize);
+        }
+        for i in order {
+            lines.extend(mods[i].lines.iter().cloned());
+        }
+        lines.push("yaml".to_string());
+        lines.push("transform".to_string());
+        lines.push("build".to_string());
+        let mut m = "none";
+        if r.chance(3, 5) {
+            m = mutate(&mut r, &mut lines);
+            if r.chance(1, 6) {
+                mutate(&mut r, &mut lines);
+                m = "double";
+            }
+        }
+        writeln!(out, "case {k} mut={m}").unwrap();
+        for l in lines {
+            writeln!(out, "{l}").unwrap();
+        }
+        writeln!(out, "end").unwrap();
+    }
+    out
 }
